@@ -3,6 +3,7 @@ import hashlib
 import inspect
 import json
 import logging
+import threading
 import time
 from collections.abc import Callable
 from concurrent.futures import ThreadPoolExecutor
@@ -78,6 +79,10 @@ class Guard:
         self._compiled: Callable[[dict[str, Any]], dict[str, Any]] | None = None
         self.strict_types: bool = bool(strict_types)
         self.relationship_checker = relationship_checker
+        # policy / policy_etag / _compiled are published together under this lock and
+        # counted by _policy_version, so evaluations can tell whether they saw one state
+        self._state_lock = threading.Lock()
+        self._policy_version: int = 0
 
         # Provide a "current" loop if missing (helps tests on Py3.12+).
         try:
@@ -100,8 +105,7 @@ class Guard:
 
     def set_policy(self, policy: dict[str, Any]) -> None:
         """Replace policy/policyset."""
-        self.policy = policy
-        self._recompute_etag()
+        self._install_policy(policy)
         # Invalidate cache entirely; etag changes will naturally change keys,
         # but clearing avoids memory growth and stale entries.
         self.clear_cache()
@@ -146,6 +150,7 @@ class Guard:
         compiled/policy/policyset functions are sync -> offload via to_thread.
         """
         fn = self._compiled
+        policy = self.policy  # read once: a concurrent set_policy must not split the branch below
         loop = asyncio.get_running_loop()
         token = EVAL_LOOP.set(loop)
         try:
@@ -157,10 +162,10 @@ class Guard:
                 logger.exception("RBACX: compiled decision failed; falling back")
 
             # policyset vs single policy
-            if "policies" in self.policy:
-                return await asyncio.to_thread(decide_policyset, self.policy, env)
+            if "policies" in policy:
+                return await asyncio.to_thread(decide_policyset, policy, env)
 
-            return await asyncio.to_thread(decide_policy, self.policy, env)
+            return await asyncio.to_thread(decide_policy, policy, env)
         finally:
             EVAL_LOOP.reset(token)
 
@@ -199,6 +204,7 @@ class Guard:
         raw = None
         cache = getattr(self, "cache", None)
         key: str | None = None
+        version = self._current_policy_version()  # taken before the etag is read for the key
 
         if cache is not None:
             try:
@@ -222,7 +228,9 @@ class Guard:
 
             if cache is not None:
                 try:
-                    if key:
+                    # Store only if no set_policy() was published since the key was built:
+                    # otherwise the decision may belong to another policy than the key's etag.
+                    if key and self._current_policy_version() == version:
                         cache.set(key, raw, ttl=self.cache_ttl)
                 except Exception:  # pragma: no cover
                     logger.exception("RBACX: cache.set failed")
@@ -374,15 +382,37 @@ class Guard:
 
     # ---------------------------------------------------------------- internals
 
+    def _current_policy_version(self) -> int:
+        lock = getattr(self, "_state_lock", None)
+        if lock is None:
+            return 0
+        with lock:
+            return self._policy_version
+
     def _recompute_etag(self) -> None:
+        self._install_policy(self.policy)
+
+    def _install_policy(self, policy: dict[str, Any]) -> None:
+        """Compute etag and compiled function for `policy`, then publish all three together."""
+        etag: str | None
         try:
-            raw = json.dumps(self.policy, sort_keys=True).encode("utf-8")
-            self.policy_etag = hashlib.sha3_256(raw).hexdigest()
+            raw = json.dumps(policy, sort_keys=True).encode("utf-8")
+            etag = hashlib.sha3_256(raw).hexdigest()
         except Exception:
-            self.policy_etag = None
+            etag = None
         # compile if compiler available
+        compiled = getattr(self, "_compiled", None)
         try:
             if compile_policy is not None:
-                self._compiled = compile_policy(self.policy)
+                compiled = compile_policy(policy)
         except Exception:
-            self._compiled = None
+            compiled = None
+        lock = getattr(self, "_state_lock", None)
+        if lock is None:
+            self.policy, self.policy_etag, self._compiled = policy, etag, compiled
+            return
+        with lock:
+            self.policy = policy
+            self.policy_etag = etag
+            self._compiled = compiled
+            self._policy_version += 1
